@@ -45,6 +45,20 @@ def str2bool(string):
     return string.lower() in ("yes", "true", "t", "1", "y")
 
 
+def wire_safe(text: str) -> str:
+    """
+    Make a string safe to send: text that cannot be encoded as UTF-8 (lone surrogates) is escaped.
+
+    :param text: the text to check
+    :return: the text, with any un-encodable characters replaced by their backslash escape
+    """
+    try:
+        text.encode('utf-8')
+        return text
+    except UnicodeEncodeError:
+        return text.encode('utf-8', 'backslashreplace').decode('utf-8')
+
+
 class RepeatedTimer:
     """Repeat `function` every `interval` seconds."""
 
